@@ -1,7 +1,9 @@
 """Fork-and-kill crash injector for file saves (DESIGN.md 3.6).  In a forked child the module under test gets an `open`
 that writes every chunk straight through an unbuffered descriptor and an `os` whose replace() is counted; the child
 calls os._exit(77) at the k-th counted step.  The parent enumerates k = 0,1,2,... until the child completes (exit 0),
-so EVERY chunk boundary / rename boundary of that save is visited."""
+so EVERY chunk boundary / rename boundary of that save is visited.  Two file models are offered: unbuffered (every written
+chunk reaches the file at once: all prefixes) and buffered (an 8 KiB userspace buffer that reaches the file only when
+full, on flush and on close: what a real process loses when it dies).  os.fsync / fileno are passed through."""
 import builtins
 import os
 
@@ -26,6 +28,9 @@ class _File:
     def flush(self):
         pass
 
+    def fileno(self):
+        return self.fd
+
     def close(self):
         self.ctl.tick("close")
         os.close(self.fd)
@@ -36,6 +41,37 @@ class _File:
     def __exit__(self, *a):
         self.close()
         return False
+
+
+class _BufferedFile(_File):
+    """the realistic variant: a userspace buffer (8 KiB, like Python's buffered text files) that reaches the file only
+    when it fills up, on flush() and on close() -- a crash loses whatever is still buffered"""
+    BUFSIZE = 8192
+
+    def __init__(self, path, mode, ctl):
+        super().__init__(path, mode, ctl)
+        self.buf = b""
+
+    def write(self, s):
+        data = s.encode() if isinstance(s, str) else s
+        self.buf += data
+        if len(self.buf) > self.BUFSIZE:
+            self._drain("write")
+        return len(s)
+
+    def _drain(self, what):
+        if self.buf:
+            self.ctl.tick(what)                                     # crash before the buffered bytes reach the file
+            os.write(self.fd, self.buf)
+            self.buf = b""
+
+    def flush(self):
+        self._drain("flush")
+
+    def close(self):
+        self._drain("close-flush")
+        self.ctl.tick("close")
+        os.close(self.fd)
 
 
 class _Os:
@@ -62,7 +98,7 @@ class _Ctl:
         self.n += 1
 
 
-def crash_points(module, action, inspect, max_points=2000):
+def crash_points(module, action, inspect, max_points=2000, buffered=False):
     """module: the module whose `open`/`os` are replaced in the child; action(): performs the save (in the child);
     inspect(k) -> called in the parent after the child died at step k.  Returns the number of crash points visited."""
     k = 0
@@ -72,7 +108,8 @@ def crash_points(module, action, inspect, max_points=2000):
             try:
                 ctl = _Ctl(k)
                 real_open = builtins.open
-                module.open = lambda p, m="r", *a, **kw: _File(p, m, ctl) if ("w" in m or "a" in m) else real_open(p, m, *a, **kw)
+                cls = _BufferedFile if buffered else _File
+                module.open = lambda p, m="r", *a, **kw: cls(p, m, ctl) if ("w" in m or "a" in m) else real_open(p, m, *a, **kw)
                 module.os = _Os(ctl)
                 action()
                 os._exit(0)
